@@ -13,6 +13,10 @@ def copyInto {α : Type} (dst : List α) (a b : BitVec 64) (src : List α) : Res
     .ok (dst.take a.toNat ++ Go.copy ((dst.take b.toNat).drop a.toNat) src ++ dst.drop b.toNat)
   else .crash
 
+/-- `make([]T, n)` with the run-time check of the length: a negative `n` panics (`makeslice: len out of range`) -/
+def makeSlice {α : Type} (zero : α) (n : BitVec 64) : Res (List α) :=
+  if n.toNat < 2 ^ 63 then .ok (List.replicate n.toNat zero) else .crash
+
 end Bluge.Go
 
 namespace Bluge.GoStd
